@@ -41,6 +41,8 @@ pub fn mask_for(prop: &str) -> Mask {
         "C04" => Mask { out: true, errs: "all", obs: "none", insp: false, leak: false },
         "C05" => Mask { out: false, errs: "ifok", obs: "none", insp: false, leak: false },
         "C06" => Mask { out: false, errs: "last", obs: "none", insp: false, leak: false },
+        // text parsers: acceptance and the matched slices
+        "C14" => Mask { out: true, errs: "none", obs: "none", insp: false, leak: false },
         "C07" => Mask { out: true, errs: "none", obs: "none", insp: false, leak: false },
         "C18" => Mask { out: true, errs: "none", obs: "insp", insp: true, leak: false },
         // memoization is judged against the memo-free grammar on the real crate (real_asserts);
@@ -113,7 +115,7 @@ const OPS: &[&str] = &[
     "grouparr", "or", "choice", "choicev", "ornot", "not", "andis", "rewind", "map", "to", "ignored", "filter", "trymap", "trymapw", "validate",
     "mw", "tospan", "toslice", "boxed", "lazy", "collect", "exact", "run", "foldl", "foldr", "foldlw", "foldrw", "recover", "label", "maperr",
     "memo", "rec", "ref", "let", "var", "withctx", "thenctx", "ignctx", "mapctx", "withstate", "nested", "tree", "pratt", "rep", "sep", "enum", "cfgrep", "cfgrepmin", "cfgrepmax",
-    "via", "skipuntil", "retry", "nesteddelim", "mws", "anyr", "selr",
+    "via", "skipuntil", "retry", "nesteddelim", "mws", "anyr", "selr", "text", "tpadded", "sleq", "newline",
 ];
 fn is_node(j: &J) -> bool {
     j.as_array().and_then(|a| a.first()).and_then(|o| o.as_str()).map_or(false, |o| OPS.contains(&o))
